@@ -597,7 +597,9 @@ var nearMisses = []string{
 	"a", "a.b", "abc\x00", "abc \x00", "$.abc\x00", "$ . abc\x00", "true\x00", "1\x00", "\"a\"\x00", "$x\x00", "$\x00", ".\x00", "/\x00", "/*\x00", "=\x00", "<\x00", "!\x00", "*\x00", "&\x00",
 }
 
-var contextTemplates = []string{"%s", "%s", "$ ? (@ == %s)", "$[%s]", "%s + 1", "(%s).a", "-%s", "$.a == %s", "(%s)", "%s == 1", "exists(%s)", "$[0 to %s]", "1 * %s", "$ ? (%s == 1 && %s == 2)"}
+var contextTemplates = []string{"%s", "%s", "$ ? (@ == %s)", "$[%s]", "%s + 1", "(%s).a", "-%s", "$.a == %s", "(%s)", "%s == 1", "exists(%s)", "$[0 to %s]", "1 * %s", "$ ? (%s == 1 && %s == 2)",
+	// the same token followed directly by another character class: what follows must not change it
+	"%s.x", "%s.", "%s.5", "%s.abs()", "$ ? (@ > %s.b)", "$[%s.a]", "$.n.decimal(%s.)", "$.t.time(%s.)", "%s/**/.x", "%s)", "%s,", "%s]", "%se1", "%s_", "%sx", "%s\"a\"", "%s$", "%s@"}
 
 var junkBytes = []byte("$@.*[](){}?!,+-/%<>=&|\"\\ \t\n_0123456789abelstxu:;#~'`^\x00\x01\x7f\x80\xbf\xc0\xc3\xa9\xe2\x82\xac\xed\xa0\x80\xf0\x9f\x98\x80\xf4\x90\xff\xee\x80\x8c")
 
